@@ -19,7 +19,19 @@ REPO = os.environ.get("VERIF_REPO", "/repo")
 SPEC = os.path.join(VERIF, "spec")
 WORK = os.path.join(VERIF, ".work")
 TLA_CP = "/opt/veriftools/tla/tla2tools.jar:/opt/veriftools/tla/CommunityModules-deps.jar"
-NCPU = os.cpu_count() or 4
+def _ncpu():
+    n = os.cpu_count() or 4
+    try:
+        if os.environ.get("VERIF_JOBS"):
+            n = min(n, int(os.environ["VERIF_JOBS"]))
+        elif os.path.exists(os.path.join(WORK, "JOBS")):     # development-time throttle when many jobs share the machine
+            n = min(n, int(open(os.path.join(WORK, "JOBS")).read().strip()))
+    except Exception:
+        pass
+    return max(1, n)
+
+
+NCPU = _ncpu()
 
 
 class MachineryFailure(Exception):
